@@ -149,6 +149,15 @@ def _stage(draw, cur):
                 continue
             ops.append({'op': 'prev', 'path': list(dst), 'src': list(src), 'inlist': src != ('nope',) and through_list(cur, src)})
             used += [src_zone, dst]
+    # the same operator node once more at another place, through a yaml alias: it acts at each place on what is there
+    appenders = [i for i, o in enumerate(ops) if o['op'] in ('append', 'extend') and not o.get('inlist')]
+    if appenders and draw(st.integers(0, 4)) == 0:
+        i = appenders[draw(st.integers(0, len(appenders) - 1))]
+        cand = [p for p in paths if isinstance(_get(cur, p), list) and not through_list(cur, p) and not any(_related(p, u) for u in used)]
+        if cand:
+            p2 = cand[draw(st.integers(0, len(cand) - 1))]
+            ops.append({'op': ops[i]['op'], 'path': list(p2), 'val': ops[i]['val'], 'inlist': False, 'alias_of': list(ops[i]['path'])})
+            used.append(p2)
     # sibling content: plain overrides at unrelated top-level keys
     sib = {}
     for k in draw(st.lists(st.sampled_from(KEYS + ['n1', 'n2']), max_size=2, unique=True)):
@@ -231,12 +240,20 @@ def stage_ast(stage):
                 cur['items'].append([c, n])
                 cur = n
         cur['items'].append([path[-1], node])
+    def aname(path):
+        return 'o' + ''.join(ch if ch.isalnum() else '_' for ch in path_str(path))
+    aliased = {tuple(op['alias_of']) for op in stage['ops'] if op.get('alias_of') is not None}
     for op in stage['ops']:
-        if op['op'] in ('append', 'extend'):
+        n_ = tuple(op['path'])
+        if op.get('alias_of') is not None:
+            put(op['path'], {'t': 'alias', 'name': aname(op['alias_of'])})
+        elif op['op'] in ('append', 'extend'):
             body = tdoc.from_plain(op['val'])
             if body['t'] == 'seq':
                 body['flow'] = True
             body['tag'] = '!' + op['op']
+            if n_ in aliased:
+                body['anchor'] = aname(op['path'])
             put(op['path'], body)
         else:
             put(op['path'], tdoc.raw(path_str(op['src']), '!prev'))
@@ -245,6 +262,9 @@ def stage_ast(stage):
         if n['t'] == 'seq':
             n['flow'] = True
         root['items'].append([k, n])
+    if aliased:
+        from .c10 import order_anchors
+        root = order_anchors(root)      # (the first place in the text carries the anchor)
     return root
 
 
@@ -304,6 +324,9 @@ def _run_case(case):
     for s in stages:
         for op in s['ops']:
             labels.add('op=' + op['op'])
+            if op.get('alias_of') is not None:
+                labels.add('operator-node-aliased')
+                nontrivial = True
             if len(op['path']) >= 2:
                 nontrivial = True
                 labels.add('depth>=1')
